@@ -1,5 +1,6 @@
 import RsslVerif.Lemmas.ConstEvalArith
 import RsslVerif.Lemmas.ConstEvalSimp
+import RsslVerif.Model.ConstEvalWf
 /-!
 # C13 helper lemmas, part 2: each arm of `evaluate_operator` (as tabulated in `Gen.EvalTable`) computes
 the value the specification defines, and its result is again in range
@@ -10,19 +11,6 @@ open RsslVerif.Spec.HlslConst (bv sInt uInt fitsLit lit?)
 namespace S
 export RsslVerif.Spec.HlslConst (unop binop litArith sArith uArith bitArith relOf valueOrd valueEq sameType castScalar cast strip enumId? applyOp opValue eval evalArgs sizeOfTy sizeOfScalar isComparison)
 end S
-
-/-- range invariant of a constant: payloads fit their Rust type, enums are not nested -/
-def wf : Constant → Bool
-  | .intLit v => i128.inRange v
-  | .int32 v => i32.inRange v
-  | .uint32 v => u32.inRange v
-  | .int64 v => i64.inRange v
-  | .uint64 v => u64.inRange v
-  | .enum _ c => wf c && c.kind != .Enum
-  | _ => true
-
-/-- a well-formed constant that is not an enum (what operators and casts work on after unwrapping) -/
-def plain (c : Constant) : Bool := wf c && c.kind != .Enum
 
 theorem okInt_ok {rk : Kind} {r : Except Err Int} {c : Constant} :
     okInt rk r = .ok c ↔ ∃ z, r = .ok z ∧ mkInt rk z = some c := by
@@ -393,12 +381,6 @@ theorem binop_Equality {a b r : Constant} (h : applyOp .Equality [a, b] = .ok r)
 theorem binop_Inequality {a b r : Constant} (h : applyOp .Inequality [a, b] = .ok r) :
     S.binop .Inequality a b = some r ∧ plain r = true := by
   simp [c13] at h; subst h; simp [c13, constEq_eq_valueEq]
-
-/-- the number of operands the arm of `evaluate_operator` for `o` looks at -/
-def arityOk (o : Op) (n : Nat) : Bool :=
-  match opTable o with
-  | none => true
-  | some e => match e.shape with | .unary => n == 1 | _ => n == 2
 
 /-- every binary arm of `evaluate_operator`: a returned value is the specified one and is in range -/
 theorem binop_agrees (o : Op) {a b r : Constant} (hn : arityOk o 2 = true) (ha : plain a = true) (hb : plain b = true)
